@@ -135,7 +135,7 @@ int main(int argc, char** argv) {
       if (!g_c03) {
          if (!vf::want_case()) continue;
          vf::note(r.family + " " + r.cfg.text()); ++configs;
-         all_lines(r, r.cfg, r.dom, depth, th ? 2 : 1, vf::current_case(), "");
+         all_lines(r, r.cfg, r.dom, depth, 2, vf::current_case(), "");
          surface_mutations(r, vf::current_case());
          vf::nontrivial_by_construction();
          if (configs % 23 == 1) vf::sample("[" + r.family + "] " + r.cfg.text() + ": all lines of <= " + std::to_string(depth) + " uses, the invalid ones in all spellings with <= " + (th ? "2" : "1") + " deviations");
@@ -147,7 +147,7 @@ int main(int argc, char** argv) {
             std::vector<std::vector<std::string>> dom = r.dom; if (vars[vi].args.size() > r.cfg.args.size() && vars[vi].args[0].lk == "alphabetic") dom.insert(dom.begin(), std::vector<std::string>());
             // a bystander in front must never be used: give it an empty domain and mark it as non-flag (STR) so that all_lines skips it
             vf::note(r.family + " v" + std::to_string(vi) + " " + vars[vi].text()); ++configs;
-            all_lines(r, vars[vi], dom, depth, th ? 2 : 1, vf::current_case(), vi ? "+bystander" : "");
+            all_lines(r, vars[vi], dom, depth, 2, vf::current_case(), vi ? "+bystander" : "");
             vf::nontrivial_by_construction();
             if (configs % 41 == 1) vf::sample("[" + r.family + "] " + vars[vi].text() + ": all valid lines of <= " + std::to_string(depth) + " uses in all spellings with <= " + (th ? "2" : "1") + " deviations");
          }
